@@ -11,6 +11,8 @@ SD="$(cd "$1" && pwd)"; shift
 # between invocations (faster sweeps; the caller removes harness/target-* afterwards).
 WT=/tmp/hf-seeded-eval-${SEEDED_SLOT:-$$}
 git -C /repo worktree remove --force "$WT" >/dev/null 2>&1
+# a directory may pin the /repo commit its patch was written against (file `base`): later fix commits touched the same lines
+[ -z "${SEEDED_BASE:-}" ] && [ -f "$SD/base" ] && SEEDED_BASE="$(cat "$SD/base")"
 git -C /repo worktree add -q --detach "$WT" "${SEEDED_BASE:-HEAD}" || exit 2
 trap 'git -C /repo worktree remove --force "$WT" >/dev/null 2>&1; [ "${SEEDED_KEEP_TARGET:-0}" = 1 ] || rm -rf "$HERE/harness/target-$(echo "$WT" | md5sum | cut -c1-8)"' EXIT
 if ! git -C "$WT" apply "$SD/patch.diff"; then echo "PATCH-DOES-NOT-APPLY $SD"; exit 2; fi
